@@ -9,7 +9,7 @@
 #include <string.h>
 
 extern "C" {
-int c10_names(const char *, const char *); int c10_init(void); int c10_free(void); int c10_setenv(const char *, const char *, int); int c10_spawns(void);
+int c10_names(const char *, const char *); int c10_init(void); int c10_free(void); int c10_regbi(int); int c10_setenv(const char *, const char *, int); int c10_spawns(void);
 long c10_expand(const char *, long, long, int, int, int); const char *c10_result(void);
 }
 using namespace vt;
@@ -227,6 +227,7 @@ struct Interp {
             if (op.name == "exp") { exact(op.s(0)); label_exact(op.s(0)); }
             else if (op.name == "safe") safety(op.s(0));
             else if (op.name == "dirs") dirscan(op);
+            else if (op.name == "regbi") { long n = std::min<long>(std::max<long>(op.i(0), 0), 60); LA(c10_regbi((int)n)); ctx.label(n >= 13 ? "builtin-table-grew-twice" : n >= 3 ? "builtin-table-grew" : "builtins-registered"); }
             else if (op.name == "batch") { is_batch = true; batch(op); }
             else if (op.name == "env") continue;
             else ctx.fail("harness", "unknown op " + op.name);
@@ -283,7 +284,8 @@ rc::Gen<std::string> gen_call() {
         if (k == 6) return "%get(" + key + " dflt)";
         if (k == 7) return std::string(*range(0, 1) ? "%appname()" : "%version()");
         if (k == 8) return "%get(%get(" + key + "))";
-        return std::string("%put(k $VT_S)");
+        // arguments that GROW when they are expanded (the call's scratch buffer must not be sized by the text of the call)
+        return *rc::gen::elementOf(std::vector<std::string>{"%put(k $VT_S)", "%put(k $VT_L)", "%put(key2 ${VT_L})", "%put(x ~/$VT_A)", "%get(nosuch $VT_L)", "%put(k $VT_A$VT_A$VT_A$VT_A)", "%put(K %get(k))"});
     });
 }
 rc::Gen<std::string> gen_value() {
@@ -327,6 +329,7 @@ rc::Gen<Case> gen_safe() {
         std::string s;
         long n = *sized_len(14);
         for (long i = 0; i <= n; i++) s += *rc::gen::elementOf(bits);
+        if (*range(0, 3) == 0) c.push_back(mk("regbi", {*rc::gen::elementOf(std::vector<long>{1, 2, 3, 8, 12, 13, 14, 33, 40})}));   // then a name that is no built-in walks the whole table
         c.push_back(mk("safe", {populated}, {s}));
         if (*range(0, 29) == 0) {
             // 80 names of 255 characters make exactly 20480 bytes of listing; walk around that point
